@@ -347,13 +347,13 @@ Definition other_type (p : proto) (t : bytes) : bool :=
   end.
 
 Section Ws.
-  Variable parse : bytes -> jparse.     (* jsoniter, text to value *)
+  Variable parse : bytes -> jparse.     (* the payload's text to value: encoding/json (jsoniter before the repair) *)
 
   Definition decode_payload (pl : option bytes) : option body :=
     match pl with
     | None => None                      (* jsoniter.Unmarshal(nil, ...) fails *)
     | Some text => match parse text with
-                   | PTree j => decode_struct Jsoniter false j
+                   | PTree j => decode_struct StdJson false j     (* json.Unmarshal(msg.Payload, &payload); jsoniter before the repair *)
                    | _ => None
                    end
     end.
